@@ -77,16 +77,16 @@ def thresholds(tier):
   if tier == "quick":
     return {"hp.scenarios": 20, "hp.leaves": 190, "hp.leaves_built": 180, "hp.scenarios_exhaustive": 12,
             "hp.scenarios_sampled": 2, "hp.offered_checked": 3000, "hp.membership_checked": 1200,
-            "hp.honour_checked": 1200, "hp.excluded_checked": 800, "hp.group_checked": 80,
+            "hp.honour_checked": 1200, "hp.excluded_checked": 800, "hp.group_checked": 55,
             "hp.architecture_checked": 180, "hp.scaled_units_checked": 25, "hp.size_layers_checked": 800,
             "hp.build_checked": 8, "hp.score_checked": 8, "delta.points": 1500, "delta.monotone_pairs": 1300,
             "delta.model_zero_checked": 9, "stub.selftest": 1, "distinct_nontrivial": 1700}
-  return {"hp.scenarios": 60, "hp.leaves": 3000, "hp.leaves_built": 2500, "hp.scenarios_exhaustive": 40,
-          "hp.scenarios_sampled": 4, "hp.offered_checked": 20000, "hp.membership_checked": 15000,
-          "hp.honour_checked": 12000, "hp.excluded_checked": 5000, "hp.group_checked": 800,
-          "hp.architecture_checked": 2500, "hp.scaled_units_checked": 60, "hp.size_layers_checked": 10000,
-          "hp.build_checked": 40, "hp.score_checked": 40, "delta.points": 12000, "delta.monotone_pairs": 10000,
-          "stub.selftest": 1, "distinct_nontrivial": 15000}
+  return {"hp.scenarios": 80, "hp.leaves": 1700, "hp.leaves_built": 1600, "hp.scenarios_exhaustive": 45,
+          "hp.scenarios_sampled": 8, "hp.offered_checked": 40000, "hp.membership_checked": 13000,
+          "hp.honour_checked": 12000, "hp.excluded_checked": 7000, "hp.group_checked": 650,
+          "hp.architecture_checked": 1600, "hp.scaled_units_checked": 80, "hp.size_layers_checked": 7500,
+          "hp.build_checked": 35, "hp.score_checked": 35, "delta.points": 3500, "delta.monotone_pairs": 3300,
+          "delta.model_zero_checked": 35, "stub.selftest": 1, "distinct_nontrivial": 5000}
 
 
 # ----------------------------------------------------------------------------- model specifications
@@ -1133,6 +1133,8 @@ def run_delta(case, ctx):
     ts = {ref, ref + 1, ref * 2, int(ref * rate) + 1, ref * 1000, rnd.randint(ref + 1, 3 * ref + 5)}
     if ref > 1:
       ts |= {ref - 1, max(1, ref // 2), max(1, int(ref / rate)), max(1, ref // 1000), rnd.randint(1, ref - 1)}
+    for _ in range(0 if ctx.tier == "quick" else 16):
+      ts.add(max(1, int(ref * 2.0 ** rnd.uniform(-12, 12))))
     ts = sorted(ts)
     vals = []
     for t in ts:
